@@ -348,6 +348,17 @@ func c17(run *ev.Run, tier string) {
 			run.Violate("C17/published-schema-differs-from-command-output/over-existing-file", map[string]any{"published_len": len(published), "written_len": len(got)})
 		}
 	}
+	// ... and over an outdated file that happens to have the same length
+	sameLen := filepath.Join(dir, "same-length.json")
+	outdated := bytes.ReplaceAll(append([]byte{}, published...), []byte("semver"), []byte("SEMVER"))
+	_ = os.WriteFile(sameLen, outdated, 0o644)
+	if _, _, code, _ := runCmd(nil, dir, nil, bin, "jsonschema", "-o", sameLen); code == 0 && !bytes.Equal(outdated, published) {
+		got, _ := os.ReadFile(sameLen)
+		run.Case("published-file|regenerated-over-outdated-file-of-the-same-length", true)
+		if !bytes.Equal(got, published) {
+			run.Violate("C17/published-schema-differs-from-command-output/over-existing-file", map[string]any{"existing_file": "same length, different content", "published_len": len(published), "written_len": len(got)})
+		}
+	}
 	// a schema file that could not be written is not reported as written: the
 	// published file would silently stop being what the command emits
 	if _, err := os.Stat("/dev/full"); err == nil {
@@ -577,7 +588,7 @@ func c17(run *ev.Run, tier string) {
 		return out
 	}
 	for _, c := range []string{"gzip", "xz", "zstd", "none"} {
-		for _, v := range variants(c) {
+		for _, v := range append(variants(c), c+":9", c+":1") { // and the rpm-style level suffix, which the deb schema does not list
 			s := base()
 			s.Deb.Compression = v
 			docs = append(docs, c17Doc{"probe|deb.compression|" + v, s.YAML(), []string{"deb"}})
